@@ -529,7 +529,7 @@ def sqrt_(a):
 
 def ufun(name, *sorts):
     c = cur()
-    key = ("ufun", name)
+    key = ("ufun", name, tuple(str(s_) for s_ in sorts))      # one function per name AND signature
     f = c.memo.get(key)
     if f is None:
         f = z3.Function(name, *sorts)
